@@ -8,7 +8,8 @@
 (* Clauses:                                                                *)
 (*   verdict  : accept/reject differs from MLMachine (RunPhase / Verify)   *)
 (*   state    : accepted but final stack / memory / claims differ          *)
-(*   harness  : verify() and the harness' own three-phase run disagree     *)
+(*   harness  : verify() accepted (as the machine does) but the harness' own *)
+(*              three-phase run did not: final state unobservable           *)
 (*   binary   : checker binary exit status disagrees with verify()         *)
 (***************************************************************************)
 EXTENDS MLMachine, Json, IOUtils, TLCExt
@@ -25,9 +26,10 @@ CheckCase(i) ==
        IF r.ok # (c.out = "ok") THEN "verdict"
        ELSE IF r.ok /\ ~SameState(r.st, c) THEN "state" ELSE ""
   ELSE LET r == Verify(c.gamma, c.claim, c.proof) IN
-       IF c.out # c.own THEN "harness"
+       IF r.ok # (c.out = "ok") THEN "verdict"           \* the REAL verify() against the machine
        ELSE IF c.bin # "none" /\ c.bin # c.out THEN "binary"
-       ELSE IF r.ok # (c.out = "ok") THEN "verdict"
-       ELSE IF r.ok /\ ~SameState(r.st, c) THEN "state" ELSE ""
+       ELSE IF r.ok /\ c.own = "ok" /\ ~SameState(r.st, c) THEN "state"   \* final state observed by the harness' own run
+       ELSE IF r.ok /\ c.own # "ok" THEN "harness"
+       ELSE ""
 INSTANCE TraceBlocks WITH NCases <- Len(Cases), Check <- CheckCase
 =============================================================================
